@@ -84,7 +84,8 @@ PLAN = {
         unit("k8s", "TestC18Coord", 300, 4000, seed_off=900)]},
     "C19": {"level": "exploration", "units": [
         unit("cyc", "TestC19", 1500, 15000, replay="TestReplayC19"),
-        unit("k8s", "TestC19K8s", 300, 4000, replay="TestReplayC19K8s", seed_off=900)]},
+        unit("k8s", "TestC19K8s", 300, 4000, replay="TestReplayC19K8s", seed_off=900),
+        unit("k8s", "TestC19Static", 200, 3000, seed_off=940)]},
     "C20": {"level": "exploration", "units": [
         unit("expl", "TestC20", 40, 600, replay="TestReplayC20", shrinktime="30s"),
         unit("expl", "TestC20Flood", 4, 12, seed_off=900, shrinktime="20s")]},
